@@ -141,6 +141,15 @@ theorem ks_mMoveRows {b b' : Book} {sheet : Nat} {row count delta : Int}
     | (injection h with h; subst h; exact KS.refl _)
     | (injection h with h; subst h; rename_i hs; exact ks_setSheet hs rfl rfl)
 
+theorem ks_mMoveColumns {b b' : Book} {sheet : Nat} {row count delta : Int}
+    (h : mMoveColumns b sheet row count delta = .ok b') : KS b b' := by
+  unfold mMoveColumns at h
+  repeat' split at h
+  all_goals first
+    | (cases h; done)
+    | (injection h with h; subst h; exact KS.refl _)
+    | (injection h with h; subst h; rename_i hs; exact ks_setSheet hs rfl rfl)
+
 theorem ks_ofLoop {b : Book} {l : LoopOut} (h : KS b l.b) : KS b (ofLoop l).w := by
   unfold ofLoop; split <;> exact h
 
@@ -231,6 +240,27 @@ theorem ks_doOp (env : Env) (b : Book) (o : Op) (hk : keepsSheets o = true) :
     · rw [h1]; exact KS.refl b
     · rw [h1]; exact KS.refl b
     · rw [h1]; exact ks_mMoveRows hm
+  | moveColumns s r n d =>
+    simp only [doOp]
+    rcases moveColumns_cases b s r n d with h1 | ⟨e', h1⟩ | ⟨b', nd, hm, h1⟩
+    · rw [h1]; exact KS.refl b
+    · rw [h1]; exact KS.refl b
+    · rw [h1]; exact ks_mMoveColumns hm
+  | setPlainInput s r c t =>
+    simp only [doOp]
+    rcases setPlainInput_cases b s r c t with ⟨e', h1⟩ | ⟨sh, hsh, _, _, ⟨_, h1⟩ | ⟨_, h1⟩⟩
+    · rw [h1]; exact KS.refl b
+    · rw [h1]; exact ks_setSheet hsh rfl rfl
+    · rw [h1]
+      have k1 : KS b (setSheet b s ({ sh with cellAt := upd2 sh.cellAt r c (some t) } : Sheet)) :=
+        ks_setSheet hsh rfl rfl
+      exact k1.trans (ks_setSheet
+        (getSheet_setSheet (t := ({ sh with cellAt := upd2 sh.cellAt r c (some t) } : Sheet)) hsh) rfl rfl)
+  | rangeClearContents s r c w ht =>
+    simp only [doOp]
+    rcases rangeClear_cases b s r c w ht with ⟨e', h1⟩ | ⟨sh, hsh, h1⟩
+    · rw [h1]; exact KS.refl b
+    · rw [h1]; exact ks_setSheet hsh rfl rfl
 
 end IronCalc.User
 
